@@ -7,6 +7,7 @@ RULE = ('grammar statements (SELECT/INSERT/UPDATE/DELETE/CREATE [OR REPLACE]/WIT
         'x continuation; non-trivial = distinct statement text')
 ASSUMPTIONS = ['grouping and accessor models tied by S-ACC/S-TREE; the hypothesis LeadHyp of leading_kw_survives is evaluated by the Lean driver on every generated statement (stream DOMAIN(leadhyp)) and its prediction compared with the real get_type()']
 PARTIAL = ['leading keyword survives grouping + get_type() after grouping are theorems under the decidable LeadHyp; the CTE clause (WITH … <DML>) is sampled, not proved', 'a keyword written directly before ( or . lexes as a Name (KF-C18-1)']
+THOROUGH_MODULES = ['SqlPropsSlow.C18Table']
 PREFIX = ['', ' ', '\n\t', '/* c */ ', '-- c\n', '/* a */\n-- b\n  ', '--+ hint\n', '  /*x*//*y*/']
 
 
@@ -180,6 +181,7 @@ def run(ctx):
     if ctx.model.available and hasattr(streams, 's_acc'):
         streams.s_acc(ctx, texts[: ctx.n(400, 6000)])
         domain_leadhyp(ctx, texts)
+        domain_cte(ctx)
     else:
         ctx.notes.append('model driver unavailable: correspondence streams skipped')
 
@@ -212,6 +214,33 @@ def domain_leadhyp(ctx, texts):
                     ctx.mismatch('DOMAIN(leadhyp)', t, 'LeadHyp holds, predicted ' + want, got)
     ctx.dist['leadhyp_holds'] = holds
     ctx.dist['leadhyp_statements'] = sum(len(o.split()) - 1 for o in outs if o.startswith('ok'))
+
+
+def domain_cte(ctx):
+    """DOMAIN(cte): the compiled model evaluates the WITH-statement table as the kernel does in the thorough tier, and the real get_type()
+    agrees statement by statement (pinned statements must NOT give the demanded keyword: they are the known finding KF-C18-3)"""
+    mo = ctx.model.ask(['ctecheck'])[0].split()
+    ctx.stream('DOMAIN(cte)', inputs=1, lines=1)
+    if mo[:1] != ['ok'] or mo[1] != mo[2]:
+        ctx.mismatch('DOMAIN(cte)', 'ctecheck', ' '.join(mo)[:300], 'every WITH statement as recorded')
+    un = lambda w: ''.join(chr(int(x, 16)) for x in w.split(',')) if w and w != '-' else ''
+    n = 0
+    for w in ctx.model.ask(['ctetexts'])[0].split()[1:]:
+        pin, text, want = w.split('|')
+        text, want = un(text), un(want)
+        ctx.stream('DOMAIN(cte)', inputs=1, lines=1)
+        n += 1
+        try:
+            got = sqlparse.parse(text)[0].get_type()
+        except Exception as e:
+            got = 'raised ' + type(e).__name__
+        ctx.evaluations += 1
+        if pin == '1':
+            if got == want:
+                ctx.mismatch('DOMAIN(cte)', text, 'pinned: decided NOT %s in the model' % want, 'real code: %s' % got)
+        elif got != want:
+            ctx.fail('WITH statement of the table: get_type() is not the DML keyword after the CTE definitions', text, observed=got, required=want)
+    ctx.dist['cte_statements'] = n
 
 
 def replay_known(ctx, k):
